@@ -205,7 +205,7 @@ class Impl:
             return "ok " + fmt_arr(x)
         if op == "setvalues":
             x = self.get(t[1], FlodymArray)
-            x.set_values(self.ndlit(t[2]))
+            x.set_values(self.ndlit(t[2]) if t[2].startswith("nd:") else self.get(t[2]))
             return "ok " + fmt_arr(x)
         if op == "split":
             x = self.get(t[1], FlodymArray)
